@@ -657,7 +657,9 @@ func init() {
 				u = append(u, fmt.Sprintf("bank operations %d < 10000", ops))
 			}
 			// competitor-runs is reported but is no floor: it depends on hook call sites that an edited tree may lack
-			for _, k := range []string{"arena-address-reused-after-close", "retained-verifications", "banks-closed"} {
+			// arena-address-reused-after-close is reported (it shows that recycling really happens with this
+			// implementation) but is no floor: an implementation that never reuses memory would be correct too
+			for _, k := range []string{"retained-verifications", "banks-closed"} {
 				if a.C(k) < 1000 {
 					u = append(u, fmt.Sprintf("%s=%d < 1000", k, a.C(k)))
 				}
